@@ -71,7 +71,16 @@ class ProbeReducer(observe.Reducer):
             self.last = inputs[0].detach().to(torch.float64)
 
 
-def mk_world(world):
+class HandLayer(neural.Layer):
+    """a user-defined layer (connections, neurons and cells added through the public Layer API; connection names differ
+    from neuron names); wiring = sum of all connection outputs into every neuron group, like Biclique's default"""
+
+    def wiring(self, inputs, **kwargs):
+        tot = torch.stack(list(inputs.values()), 0).sum(0)
+        return {k: tot for k in self.neurons_}
+
+
+def mk_world(world, hand=None):
     layers, cellmap = [], {}
     for li, (conns, nneur) in enumerate(world):
         cs = []
@@ -82,7 +91,17 @@ def mk_world(world):
             cs.append((f"c{ci}", c))
         ns = [(f"n{ni}", neural.LIF((2,), float(conns[0][0]), rest_v=-60.0, reset_v=-65.0, thresh_v=-50.0,
                                     refrac_t=0.0, time_constant=20.0)) for ni in range(nneur)]
-        lay = neural.Biclique(cs, ns)
+        if hand and hand[li]:
+            lay = HandLayer()
+            for nm, c in cs:
+                lay.add_connection(nm, c)
+            for nm, n in ns:
+                lay.add_neuron(nm, n)
+            for nm, _ in cs:
+                for nn_, _ in ns:
+                    lay.add_cell(nm, nn_)
+        else:
+            lay = neural.Biclique(cs, ns)
         layers.append(lay)
         for ci in range(len(conns)):
             for ni in range(nneur):
@@ -114,15 +133,49 @@ def mk_trainer(ty):
 
 
 def reg_kwargs(ty, hp):
+    """per-cell overrides; hp = d0 + 10 d1 + 100 d2 + 1000 d3: tc_post += d0, tc_pre += d1, |lr_post| += d2, |lr_pre| += d3
+    (only the overridden hyperparameters are passed)"""
     k = ty[0]
-    if hp == 0:
-        return {}
+    d = [(hp // m) % 2 for m in (1, 10, 100, 1000)]
+    kw = {}
     if k in ("STDP", "MSTDP", "MSTDPET"):
-        return {"tc_post": 20.0 + hp, "tc_pre": 20.0 + hp}
-    if k == "Triplet":
-        return {"tc_post_fast": 10.0 + hp, "tc_pre_fast": 10.0 + hp, "tc_post_slow": 20.0 + hp,
-                "tc_pre_slow": 20.0 + hp}
-    return {}
+        if d[0]:
+            kw["tc_post"] = 21.0
+        if d[1]:
+            kw["tc_pre"] = 21.0
+        if d[2]:
+            kw["lr_post"] = 2.0
+        if d[3]:
+            kw["lr_pre"] = -2.0
+    elif k == "Triplet":
+        if d[0]:
+            kw.update(tc_post_fast=11.0, tc_post_slow=21.0)
+        if d[1]:
+            kw.update(tc_pre_fast=11.0, tc_pre_slow=21.0)
+    return kw
+
+
+# which hyperparameters of the cell's state a trainer-built trace monitor must carry (documented roles: the
+# postsynaptic trace weighs the update made on presynaptic spikes and vice versa)
+TRACE_CFG = {"trace_post": ("lr_pre", "tc_post"), "trace_pre": ("lr_post", "tc_pre")}
+
+
+def config_errors(trs, types):
+    bad = []
+    for t, tr in enumerate(trs):
+        if tr is None or types[t][0] not in ("STDP", "MSTDP", "MSTDPET"):
+            continue
+        for cn, (_c, st) in tr.named_cells:
+            for mn, m in tr.named_monitors_of(cn):
+                if mn not in TRACE_CFG or not hasattr(m.reducer, "amplitude"):
+                    continue
+                lr, tc = TRACE_CFG[mn]
+                want = (abs(float(getattr(st, lr))), float(getattr(st, tc)))
+                got = (abs(float(m.reducer.amplitude)), float(m.reducer.time_constant))
+                if want != got:
+                    bad.append([t, int(cn[4:]), mn, list(got), list(want)])
+            m = None
+    return bad
 
 
 def call_trainer(ty, tr):
@@ -136,7 +189,7 @@ def call_trainer(ty, tr):
 class Run:
     def __init__(self, case):
         self.case = case
-        self.layers, self.cellmap = mk_world(case["world"])
+        self.layers, self.cellmap = mk_world(case["world"], case.get("hand"))
         self.trainers = [mk_trainer(ty) for ty in case["trainers"]]
         self.steps = [0] * len(self.layers)
         self.cur = None                      # (layer index, stamp) of the layer call in progress
@@ -239,6 +292,21 @@ class Run:
             call_trainer(self.case["trainers"][op[1]], self.trainers[op[1]])
         elif k == "clear":
             self.trainers[op[1]].clear()
+        elif k == "getcell":
+            # obtain an existing cell again through one of the layer's public routes: must be the very same object
+            _, li, ci, ni, route = op
+            lay = self.layers[li]
+            if route == 0 and isinstance(lay, HandLayer):
+                c = lay.add_cell(f"c{ci}", f"n{ni}")
+            elif route == 1:
+                c = lay.get_cell(f"c{ci}", f"n{ni}")
+            else:
+                c = getattr(getattr(lay.cells, f"c{ci}"), f"n{ni}")
+            same = self.cellmap.get(id(c)) == (li, ci, ni)
+            c = None
+            gc.collect()
+            if not same:
+                raise RuntimeError("the layer handed out a different Cell object for an existing cell")
         elif k == "drop":
             self.trainers[op[1]] = None
         else:
@@ -258,7 +326,7 @@ class Run:
             if tr is None:
                 trs.append([])
                 continue
-            cells = [[int(n[4:]), list(self.cellmap[id(c)])] for n, (c, _st) in tr.named_cells]
+            cells = [[int(n[4:]), list(self.cellmap.get(id(c), (-1, -1, -1)))] for n, (c, _st) in tr.named_cells]
             named = [[int(cn[4:]), mcode(mn), self.number_of(m)] for (cn, mn), m in tr.named_monitors]
             mons = [self.number_of(m) for m in tr.monitors]
             trs.append([int(tr.training), cells, named, mons])
@@ -287,7 +355,7 @@ class Run:
     def run(self):
         out = []
         for op in self.case["ops"]:
-            t = op[1] if op[0] not in ("lmode", "lstep") else None
+            t = op[1] if op[0] not in ("lmode", "lstep", "getcell") else None
             try:
                 if t is not None and (t >= len(self.trainers) or self.trainers[t] is None):
                     raise NotImplementedError("trainer dropped")
@@ -300,7 +368,7 @@ class Run:
                 gc.collect()     # everything else dies by reference counting (a lingering monitor would show up
                                  # as a live, unlisted monitor in the snapshot and fail the comparison)
             self.scan()
-            out.append([code, self.snapshot(), msg])
+            out.append([code, self.snapshot(), msg, config_errors(self.trainers, self.case["trainers"])])
         return out
 
 
